@@ -305,6 +305,25 @@ pub fn cases(tier: Tier) -> Vec<Case> {
                 }
             }
         }
+        // letters whose Unicode case mapping lands on an ASCII letter (KELVIN SIGN -> k, LONG S -> S, dotted/dotless i)
+        let valid2: Vec<&str> = SIZE_UNITS.iter().map(|(u, _)| *u).chain(INTERVAL_UNITS.iter().map(|(u, _)| *u)).collect();
+        for u in valid2 {
+            let cs: Vec<char> = u.chars().collect();
+            for i in 0..cs.len() {
+                let subs: &[char] = match cs[i] {
+                    'k' => &['\u{212a}'],
+                    's' => &['\u{17f}'],
+                    'i' => &['\u{130}', '\u{131}'],
+                    _ => &[],
+                };
+                for sub in subs {
+                    let mut d = cs.clone();
+                    d[i] = *sub;
+                    damaged.push(d.iter().collect());
+                    damaged.push(d.iter().collect::<String>().to_uppercase());
+                }
+            }
+        }
         damaged.sort();
         damaged.dedup();
         damaged.retain(|d| !d.is_empty());
